@@ -370,6 +370,40 @@ pub fn gen_cfg_settings(seed: u64) -> Cfg {
     Cfg { router, priority_queue: false, discard, rate: None, dead_man: None, pool, ops, end_with_drain: p.chance(1, 2) }
 }
 
+/// Targeted generator for sticky routing across a pool growth: one or two busy workers, a backlog of a few jobs over two or three
+/// keys (the key in progress first), a growth by two or more, then quiet barriers while the long jobs are still running.
+pub fn gen_cfg_sticky_grow(seed: u64) -> Cfg {
+    let mut p = Prng::new(seed ^ 0x571c);
+    let nkeys = 3u64;
+    let pool = p.range(1, 2) as usize;
+    let mut ops = vec![];
+    let long = |p: &mut Prng, key: K| Op::Dispatch { key, dur: *p.pick(&[50u64, 50, 20]), beh: JBeh::Ok, ttl: None, with_port: p.chance(1, 2) };
+    // the existing workers are busy with key 2 (or keys 2 and 0); the backlog starts with a run of one key nobody holds yet
+    for w in 0..pool as u64 {
+        let k = if w == 0 { 2 } else { *p.pick(&[2u64, 0]) };
+        ops.push((0, long(&mut p, k)));
+    }
+    let first = *p.pick(&[0u64, 1]);
+    for _ in 0..p.range(2, 3) {
+        ops.push((0, long(&mut p, first)));
+    }
+    for _ in 0..p.range(1, 3) {
+        let k = p.below(nkeys);
+        ops.push((0, long(&mut p, k)));
+    }
+    ops.push((*p.pick(&[0u64, 1]), Op::Resize(pool + p.range(2, 3) as usize)));
+    ops.push((2, Op::Barrier));
+    ops.push((3, Op::Barrier));
+    for _ in 0..p.range(0, 6) {
+        let k = p.below(nkeys);
+        ops.push((*p.pick(&[0u64, 1, 5]), long(&mut p, k)));
+        if p.chance(1, 3) {
+            ops.push((1, Op::Barrier));
+        }
+    }
+    Cfg { router: RouterKind::Sticky, priority_queue: false, discard: None, rate: None, dead_man: None, pool, ops, end_with_drain: p.chance(1, 2) }
+}
+
 /// Targeted generator: few keys, long jobs, workers that die right after reporting completion while same-key work is
 /// queued behind them (the window in which a stale completion report can be matched against the replacement's job).
 pub fn gen_cfg_stale_report(seed: u64) -> Cfg {
@@ -482,6 +516,7 @@ async fn drive<R: Router<K, FJob>, Q: Queue<K, FJob>>(cfg: Cfg, router: R, queue
                 // three separate messages: the factory may process worker reports in between. Only this task
                 // dispatches, so between the reads the queue can only shrink: reading `active` first and the depth
                 // afterwards means "depth > 0" also held at the instant `active` was read.
+                sh.log(FEv::Op("barrier-sent".into()));
                 let active = factory.call(FactoryMessage::GetNumActiveWorkers, None).await;
                 let depth = factory.call(FactoryMessage::GetQueueDepth, None).await;
                 let cap = factory.call(FactoryMessage::GetAvailableCapacity, None).await;
